@@ -20,10 +20,11 @@ Over(S) == {If3(c, a, b) : c \in Conds, a \in S, b \in S} \cup {If2(c, a) : c \i
            \cup {IfErr(x, f) : x \in S, f \in S}
 T1 == Over(Leaves)
 \* the nested child of a depth-2 nest: all of T1, or (Sample) the nests over two leaves only
-Inner == IF Sample THEN Over({[t |-> "num", n |-> 7], [t |-> "fail"]}) ELSE T1
+InnerSet(sample) == IF sample THEN Over({[t |-> "num", n |-> 7], [t |-> "fail"]}) ELSE T1
 OuterLeaves == IF Sample THEN {[t |-> "num", n |-> 9], [t |-> "na"]} ELSE Leaves
 \* exactly one nested child
-OneNested == {If3(c, a, b) : c \in Conds, a \in Inner, b \in OuterLeaves} \cup {If3(c, a, b) : c \in Conds, a \in OuterLeaves, b \in Inner}
+\* (an operator with a parameter: TLC evaluates zero-arity constant definitions eagerly at start-up, which costs minutes for the full set)
+OneNestedOf(Inner) == {If3(c, a, b) : c \in Conds, a \in Inner, b \in OuterLeaves} \cup {If3(c, a, b) : c \in Conds, a \in OuterLeaves, b \in Inner}
              \cup {If2(c, a) : c \in Conds, a \in Inner}
              \cup {Ifs(<<<<c, a>>, <<d, b>>>>) : c \in Conds, d \in Conds, a \in Inner, b \in OuterLeaves}
              \cup {Ifs(<<<<c, a>>, <<d, b>>>>) : c \in Conds, d \in Conds, a \in OuterLeaves, b \in Inner}
@@ -48,7 +49,7 @@ Laws == st.ph = "case" => (UntakenBranchIrrelevant(st.a) /\ IfErrorPassThrough(s
 Init == \E c \in Conds : st = [ph |-> "shard", c |-> c]
 Mentions(a, c) == (a.t \in {"if3", "if2"} /\ a.c = c) \/ (a.t = "ifs" /\ a.ps[1][1] = c) \/ (a.t = "iferror" /\ c.i = 1)
 Next == /\ st.ph = "shard"
-        /\ \E a \in (IF Depth = 1 THEN T1 ELSE OneNested) :
+        /\ \E a \in (IF Depth = 1 THEN T1 ELSE OneNestedOf(InnerSet(Sample))) :
              /\ Mentions(a, st.c)
              /\ st' = [ph |-> "case", a |-> a]
              /\ PrintT(ToJson(Row(a)))
